@@ -711,12 +711,12 @@ theorem write_path_rule (outdir : String) (dn fn fe : String) (ft : Option Strin
 the value names `filepath`, `output.filename/fileext/filepath` are set, and the file holds the text (an
 `existing_unchanged` Write keeps an existing file). -/
 theorem write_file_at_path (conv : Conv C) (outdir : String) (mode : WMode) (w : World C) (v : Val C) (c : C)
-    (d fn fe p : String) (hd : v.data = .text c)
+    (d fn fe p : String) (hd : v.data = .text c) (hw : v.noWrite = false)
     (hn : wmfCore outdir "output" v.out.dirname v.out.filename v.out.fileext v.out.filetype = .ok (d, fn, fe, p)) :
     ∃ w' v', writeVal conv outdir mode w v = .ok (w', v') ∧ v'.data = .path p ∧
       v'.out.filename = some fn ∧ v'.out.fileext = some fe ∧ v'.out.filepath = some p ∧
       HasContent w'.fs p (effective mode (w.fs p) c) ∧ (∀ q, q ≠ p → w'.fs q = w.fs q) :=
-  ⟨_, _, writeVal_text conv outdir mode w v c d fn fe p hd hn, rfl, rfl, rfl, rfl,
+  ⟨_, _, writeVal_text conv outdir mode w v c d fn fe p hd hw hn, rfl, rfl, rfl, rfl,
     writeCore_content mode p c w v.out.changed, fun _ h => writeCore_frame mode p c w v.out.changed h⟩
 
 /-- an empty `output.filename` is a `LenaRuntimeError` -/
@@ -1018,7 +1018,7 @@ theorem group_fresh_partial (conv : Conv C) (hok : ConvOK conv) (r : RunSpec) (m
       rw [this]
       simp only [List.any_map, Function.comp_def]
     obtain ⟨ov, ht, _, hv⟩ := tailStage_eq_downCore conv r.cfg r.tpl w1 (mfVal r.cfg.gmf.overwrite gms gv) u.csvs
-      d fn fe u.tex hft hdeps hn u rfl hpdf hpng w' (some c) (by rw [hchg]; exact hg)
+      d fn fe u.tex hft rfl hdeps hn u rfl hpdf hpng w' (some c) (by rw [hchg]; exact hg)
     obtain ⟨v, hov, hdata, _, _⟩ := hv c rfl
     subst hov
     exact ⟨w', v, by rw [hrun, ht]; rfl, hdata, hfresh, hframe, hck, hinv'⟩
